@@ -283,7 +283,24 @@ def step (st : St) (j : Json) : St × List String :=
       match c.tree with
       | .obj fs => (match objGet fs "id" with | some (.str s) => some s | _ => none)
       | _ => none
-    (st, ["registration " ++ (validateRegistrationPE cfg (reOf st.re) idOf st.pd (walletOf st (jObj j "wallet"))).cls])
+    -- + the CLIENT side (discovery/client.go findCredentialsAndBuildPresentation) on the same wallet, and the round trip
+    --   client -> server (validateRegistration on exactly the credentials the client presents)
+    let w := walletOf st (jObj j "wallet")
+    let (creg, rt) := match clientRegistrationCreds cfg (reOf st.re) st.pd w none with
+      | .ok vcs => ("clientreg ok:" ++ String.intercalate "," (vcs.map (·.name)),
+                    "roundtrip " ++ (validateRegistrationPE cfg (reOf st.re) idOf st.pd vcs).cls)
+      | .err e => ("clientreg err:" ++ (if e == "nocred" then "nocred" else "other"), "roundtrip -")
+      | .panic s => ("clientreg panic:" ++ s, "roundtrip -")
+    (st, ["registration " ++ (validateRegistrationPE cfg (reOf st.re) idOf st.pd w).cls, creg, rt])
+  | "activate" =>
+    -- the DID loop of discovery/client.go activate on a sequence of per-DID outcomes
+    let results : List RegResult := (jArr j "results").filterMap fun x =>
+      match x.getStr?.toOption with
+      | some "registered" => some .registered
+      | some "nocred" => some .noCredentials
+      | some "failed" => some .failed
+      | _ => none
+    (st, ["activate " ++ activateVerdict results])
   | "formats" =>
     -- presenter.buildSubmission's format negotiation: node defaults (data: the real oauth.DefaultOpenIDSupportedFormats())
     -- ∩ verifier metadata ∩ definition format, then ChooseVPFormat
